@@ -302,8 +302,23 @@ def fragment_records(header, frag, encoded=True, lib='LIB'):
     if r1_present:
         recs.append(mk(True, r1_start, fr1e, frag['rev'], r1_mapped, r2_mapped if r2_present or d == 'orphan_r1' else True,
                        r2_start, not frag['rev'], seq1, cig1))
+    cig2 = [(0, ln2)]
+    shape = frag.get('r2cig')      # richer alignments of read 2 on the same reference span (the span is what molecule assignment looks at)
+    if shape and r2_mapped and ln2 >= 12:
+        a = 3 + frag['n'] % (ln2 - 8)
+        if shape == 'ins':
+            cig2 = [(0, a), (1, 2), (0, ln2 - a)]
+            seq2 = _seq(frag['n'], 2, ln2 + 2)
+        elif shape == 'del':
+            cig2 = [(0, a), (2, 3), (0, ln2 - a - 3)]
+            seq2 = _seq(frag['n'], 2, ln2 - 3)
+        elif shape == 'splice':
+            cig2 = [(0, a), (3, 4), (0, ln2 - a - 4)]
+            seq2 = _seq(frag['n'], 2, ln2 - 4)
+        elif shape == 'hard':
+            cig2 = [(5, 5), (0, ln2)]
     if r2_present:
-        recs.append(mk(False, r2_start, fr2e, not frag['rev'], r2_mapped, r1_mapped, r1_start, frag['rev'], seq2, [(0, ln2)]))
+        recs.append(mk(False, r2_start, fr2e, not frag['rev'], r2_mapped, r1_mapped, r1_start, frag['rev'], seq2, cig2))
     extra = frag.get('extra')      # secondary / supplementary copy of R1 (dropped by the mate-pairing library; outside the claim)
     if extra and r1_present and r1_mapped:
         s = mk(True, max(0, fr1s + extra.get('shift', 7)), None, frag['rev'], True, r2_mapped, r2_start, not frag['rev'], seq1, cig1)
